@@ -152,7 +152,7 @@ def inject(prog, kind, rng, place, order, pos):
                 b = rng.choice(cands2)
     elif kind == "module_id":
         sa = sb = "module_ids"
-        v = rng.choice([61, 77, 201, 250])
+        v = rng.choice([61, 77, 201, 250, 0])     # (0 is exempt from the range rule, not from the duplicate rule; the core definitions use it too)
         ea, eb = f"  XMA{u}: {v}", f"  XMB{u}: {v}"
     elif kind == "host_dup_oor":
         sa = sb = "host_ids"
@@ -160,7 +160,7 @@ def inject(prog, kind, rng, place, order, pos):
         ea, eb = f"  XHA{u}: {v}", f"  XHB{u}: {v}"
     elif kind == "module_dup_oor":
         sa = sb = "module_ids"
-        v = rng.choice([5, 9, 150, 199, -3])
+        v = rng.choice([5, 9, 150, 199, -3, 0])
         ea, eb = f"  XMA{u}: {v}", f"  XMB{u}: {v}"
     elif kind == "host_id":
         sa = sb = "host_ids"
